@@ -10,11 +10,11 @@ protocol
       comma-separated: `r<store>.<bit>` a bit of a right-hand signal, `0`/`1` a constant, `-` not assigned
 
   rpn (comma-separated stack program)
-      layouts   `b<w>` unsigned leaf, `g<w>` signed leaf, `K<name>` / `N<i>` a key, `s<n>` struct of n
+      layouts   `b<w>` unsigned leaf, `g<w>` signed leaf, `e<w>.<id>` Enum class id of width w, `n<w>` IntEnum of width w, `K<name>` / `N<i>` a key, `s<n>` struct of n
                 (key, layout) pairs, `u<n>` union, `a<n>` array of length n (pops its element layout)
       objects   `V<store>` Signal(layout) (pops a layout), `P<idx>.<s1>/<s2>/…` Array of Signal(layout)
                 indexed by a signal whose value is idx, `P<i>_<j>_<k>.<n1>x<n2>x<n3>.<s1>/…` nested Arrays
-                `arr[i][j][k]` (signals in row-major order), `i<v>` int, `D<n>` dict of n (key, object) pairs,
+                `arr[i][j][k]` (signals in row-major order), `i<v>` int, `C<bits>` layout.const with these bits (pops a layout), `E<v>.<w>.<id>` a member of Enum id, `D<n>` dict of n (key, object) pairs,
                 `L<n>` list of n objects
       selection `mC` `mL` `mR` `mA` AssignType, `I<n>` iterable of n keys, `M<n>` mapping of n (key, selection) pairs
 -/
@@ -80,7 +80,20 @@ def rpnStep (st : Option (List Item)) (tok : String) : Option (List Item) :=
     else if c == "N" then rest.toNat?.map fun i => Item.key (.idx i) :: st
     else if c == "b" then rest.toNat?.map fun w => Item.lay (.leaf w false) :: st
     else if c == "g" then rest.toNat?.map fun w => Item.lay (.leaf w true) :: st
-    else if c == "i" then rest.toNat?.map fun v => Item.obj (.int v) :: st
+    else if c == "i" then rest.toNat?.map fun v => Item.obj (.int v (bitsFor v) false none) :: st
+    else if c == "n" then rest.toNat?.map fun w => Item.lay (.leaf w false) :: st     -- IntEnum: a plain unsigned shape
+    else if c == "e" then
+      match (rest.splitOn ".").mapM String.toNat? with
+      | some [w, id] => some (Item.lay (.enum w id) :: st)
+      | _ => none
+    else if c == "C" then
+      match rest.toNat?, st with
+      | some v, .lay l :: st' => some (.obj (ofConst l v) :: st')
+      | _, _ => none
+    else if c == "E" then                                                              -- a member of an Enum class given directly
+      match (rest.splitOn ".").mapM String.toNat? with
+      | some [v, w, id] => some (Item.obj (.int (v % 2 ^ w) w false (some id)) :: st)
+      | _ => none
     else if c == "m" then
       (if rest == "C" then some Mode.common else if rest == "L" then some Mode.lhs
         else if rest == "R" then some Mode.rhs else if rest == "A" then some Mode.all else none).map
@@ -140,7 +153,9 @@ mutual
 /-- (signal, number of bits) for every node of the object; under a proxy every element signal -/
 def extents (c : Option (List Nat)) : Obj → List (Nat × Nat)
   | .val st off w _ _ => (match c with | some ss => ss | none => [st]).map fun s => (s, off + w)
-  | .int _ => []
+  | .int _ _ _ _ => []
+  | .enumv st off w _ => (match c with | some ss => ss | none => [st]).map fun s => (s, off + w)
+  | .const _ _ _ _ _ => []
   | .view _ st off size ms => ((match c with | some ss => ss | none => [st]).map fun s => (s, off + size)) ++ extentsM c ms
   | .dict ms => extentsM c ms
   | .list ms => extentsM c ms
@@ -164,7 +179,9 @@ def resolve (c : Option PCtx) (store : Nat) : Option Nat :=
 /-- source of bit `j` of the destination of a flow -/
 def srcBit (s : Src) (j : Nat) : String :=
   match s with
-  | .const v => if v.testBit j then "1" else "0"
+  | .const v w sg =>
+    if j < w then (if v.testBit j then "1" else "0")
+    else if sg && 0 < w && v.testBit (w - 1) then "1" else "0"
   | .bits c st off w sg =>
     match resolve c st with
     | none => "?"
